@@ -14,6 +14,8 @@ pub(crate) const CHK_STATS: u32 = 2;
 pub(crate) const CHK_SIZES: u32 = 4;
 pub(crate) const CHK_MONITOR: u32 = 8;
 pub(crate) const CHK_HINT: u32 = 16;
+/// only the direct check of every hint entry against its data file (no double recovery)
+pub(crate) const CHK_HINT_DIRECT: u32 = 32;
 
 /// Merge thresholds (fragmentation, dead_bytes, small_file) that make the real
 /// `fileids_to_merge` select ...
@@ -112,8 +114,8 @@ pub(crate) fn check_stats(ctx: &Context) {
 /// file removals and growing ids; no data file exceeds max_file_size by more than one entry.
 pub(crate) fn check_monitor(ctx: &Context) {
     let fs = mfs::__fs();
-    assert!(!fs.out_of_model, "model bound: the file-system model was used outside what it represents");
     assert!(!fs.c14_violation, "[C14] a file was created non-exclusively, written other than by appending through its creator, renamed, truncated, reopened for writing, or created with an id not above every earlier id");
+    assert!(!fs.out_of_model, "model bound: the file-system model was used outside what it represents");
     let mut id = 0;
     while id < mfs::NID {
         // only files written by this process under this configuration (a laid-out file may stem
@@ -152,6 +154,9 @@ impl<const F: u32> Sc<F> {
         }
         if F & CHK_MONITOR != 0 {
             check_monitor(&self.s.ctx);
+        }
+        if F & (CHK_HINT | CHK_HINT_DIRECT) != 0 {
+            check_hint_entries();
         }
     }
     pub fn put(&mut self, ki: usize) {
@@ -311,6 +316,16 @@ pub(crate) fn shape_6<const F: u32>() {
     sc.merge();
     kani::cover!(!mfs::__fs().inodes[dslot(1)].linked, "the tombstone's file was merged");
     sc.reopen(u64::MAX, T_NONE);
+    sc.finish();
+}
+
+/// S7: the smallest rollover shape: empty directory, every write rolls over; put a, put b, and each
+/// is read back at once in the same process (the entry that triggers a rollover must stay readable).
+pub(crate) fn shape_7<const F: u32>() {
+    let m: Model = [None, None];
+    let mut sc = Sc::<F>::open(m, 0, false, T_NONE);
+    sc.put(0);
+    sc.put(1);
     sc.finish();
 }
 
@@ -513,13 +528,15 @@ pub(crate) fn faulty_put(sc: &mut Sc<0>, ki: usize) -> Option<(Option<u8>, Optio
     let r = sc.s.w.put(kb(K[ki]), kb(v));
     let hit = mfs::__fs().fail_hit && !before;
     let old = sc.m[ki];
-    let failed = r.is_err();
-    std::mem::forget(r);
+    // `hit` is concrete in an instance; the result's discriminant is not foldable (niche-encoded
+    // Result<(), Error>), so the control flow below follows `hit` and the solver checks agreement
     if hit {
-        assert!(failed, "[C20] a file-system call failed on behalf of a put, yet the put reported success");
+        assert!(r.is_err(), "[C20] a file-system call failed on behalf of a put, yet the put reported success");
     } else {
-        assert!(!failed, "[C20] an operation failed although no fault was injected into it");
+        assert!(r.is_ok(), "[C20] an operation failed although no fault was injected into it");
     }
+    let failed = hit;
+    std::mem::forget(r);
     fault_reads(sc, ki, old, Some(v), failed);
     if failed { Some((old, Some(v))) } else { None }
 }
@@ -528,13 +545,13 @@ pub(crate) fn faulty_del(sc: &mut Sc<0>, ki: usize) -> Option<(Option<u8>, Optio
     let r = sc.s.w.delete(kb(K[ki]));
     let hit = mfs::__fs().fail_hit && !before;
     let old = sc.m[ki];
-    let failed = r.is_err();
-    std::mem::forget(r);
     if hit {
-        assert!(failed, "[C20] a file-system call failed on behalf of a delete, yet the delete reported success");
+        assert!(r.is_err(), "[C20] a file-system call failed on behalf of a delete, yet the delete reported success");
     } else {
-        assert!(!failed, "[C20] an operation failed although no fault was injected into it");
+        assert!(r.is_ok(), "[C20] an operation failed although no fault was injected into it");
     }
+    let failed = hit;
+    std::mem::forget(r);
     fault_reads(sc, ki, old, None, failed);
     if failed { Some((old, None)) } else { None }
 }
@@ -542,16 +559,18 @@ pub(crate) fn faulty_merge(sc: &mut Sc<0>) -> bool {
     let before = mfs::__fs().fail_hit;
     let r = sc.s.w.merge();
     let hit = mfs::__fs().fail_hit && !before;
-    let failed = r.is_err();
-    std::mem::forget(r);
     if hit {
-        assert!(failed, "[C20] a file-system call failed on behalf of a merge, yet the merge reported success");
+        assert!(r.is_err(), "[C20] a file-system call failed on behalf of a merge, yet the merge reported success");
     } else {
-        assert!(!failed, "[C20] an operation failed although no fault was injected into it");
+        assert!(r.is_ok(), "[C20] an operation failed although no fault was injected into it");
     }
+    let failed = hit;
+    std::mem::forget(r);
     // a merge changes no key, failed or not
+    let susp = suspend_faults();
     let g0 = sc.s.r.get(kb(K[0]));
     let g1 = sc.s.r.get(kb(K[1]));
+    resume_faults(susp);
     match (&g0, &g1) {
         (Ok(a), Ok(b)) => assert!(v1(a) == sc.m[0] && v1(b) == sc.m[1], "[C20] a (failed) merge changed what a key reads"),
         _ => assert!(false, "[C20] a key cannot be read after a (failed) merge"),
@@ -563,7 +582,27 @@ pub(crate) fn faulty_merge(sc: &mut Sc<0>) -> bool {
 /// After an operation on key `ki`: the other key reads exactly its model value; `ki` reads the new
 /// value if the operation succeeded, the old or the new one if it failed (the model adopts what
 /// the store reports, so that later steps are exact again).
+/// The fault is meant for the k-th file-system call of the WRITE-side operations: while the harness
+/// reads back (its own gets), injection is suspended and the pending fault point is moved past the
+/// calls the reads issued.
+fn suspend_faults() -> (usize, usize) {
+    let fs = mfs::__fs();
+    let saved = fs.fail_at;
+    fs.fail_at = usize::MAX;
+    (saved, fs.steps)
+}
+fn resume_faults(s: (usize, usize)) {
+    let fs = mfs::__fs();
+    let used = fs.steps - s.1;
+    fs.fail_at = if s.0 == usize::MAX || fs.fail_hit || s.0 < s.1 { s.0 } else { s.0 + used };
+}
+
 fn fault_reads(sc: &mut Sc<0>, ki: usize, old: Option<u8>, new: Option<u8>, failed: bool) {
+    let susp = suspend_faults();
+    fault_reads_inner(sc, ki, old, new, failed);
+    resume_faults(susp);
+}
+fn fault_reads_inner(sc: &mut Sc<0>, ki: usize, old: Option<u8>, new: Option<u8>, failed: bool) {
     let other = 1 - ki;
     match sc.s.r.get(kb(K[other])) {
         Ok(g) => assert!(v1(&g) == sc.m[other], "[C20] an operation on one key changed what another key reads"),
@@ -609,43 +648,122 @@ pub(crate) fn fault_restart(sc: Sc<0>, undetermined: [Option<(Option<u8>, Option
     std::mem::forget(stats);
 }
 
-fn arm_fault() {
+/// Arm ONE fault: file-system call number `at` counted from now fails; mode 0 = error without
+/// effect, mode 1 = (writes of >= 2 bytes) a short write of `short` bytes followed by an error on
+/// the next write to that file.  Concrete per harness instance: a symbolic fault point makes the
+/// whole run symbolic and does not finish in 40 min (measured).
+fn arm_fault(at: usize, mode: u8, short: usize) {
     let fs = mfs::__fs();
-    fs.fail_at = kani::any();
-    fs.fail_mode = kani::any();
-    kani::assume(fs.fail_mode <= 1);
-    fs.short_len = kani::any();
+    fs.fail_at = fs.steps + at;
+    fs.fail_mode = mode;
+    fs.short_len = short;
 }
 
 /// Fault shape A: rollover on every write (max_file_size 0): put a, put b, del a, put a; one fault
 /// at a symbolic call (any kind: create, write — also as a short write —, fsync), symbolic mode.
-pub(crate) fn fault_shape_a(sync: bool) {
+pub(crate) fn fault_shape_a(sync: bool, at: usize, mode: u8) {
     let init: Model = [None, None];
     let mut sc = Sc::<0>::open(init, 0, sync, T_NONE);
-    arm_fault();
+    arm_fault(at, mode, 3);
     let _ = faulty_put(&mut sc, 0);
     let ub = faulty_put(&mut sc, 1); // the last operation on `b`
     let _ = faulty_del(&mut sc, 0);
     let ua = faulty_put(&mut sc, 0); // the last operation on `a`: determines it unless it failed itself
-    kani::cover!(mfs::__fs().fail_hit && mfs::__fs().fail_kind == mfs::K_CREATE, "a file creation failed");
-    kani::cover!(mfs::__fs().fail_hit && mfs::__fs().fail_kind == mfs::K_WRITE, "a write failed");
+    kani::cover!(mfs::__fs().fail_hit, "the fault was injected");
     fault_restart(sc, [ua, ub]);
 }
 
 /// Fault shape B: one big file with values on disk; del a, merge of everything, put b.
-pub(crate) fn fault_shape_b(sync: bool) {
+pub(crate) fn fault_shape_b(sync: bool, at: usize, mode: u8) {
     mfs::__preexisting(dslot(0));
     let (va, vb): (u8, u8) = (kani::any(), kani::any());
     lay_data(dslot(0), 0, K[0], Some(va));
     lay_data(dslot(0), 0, K[1], Some(vb));
     let init: Model = [Some(va), Some(vb)];
     let mut sc = Sc::<0>::open(init, u64::MAX, sync, T_ALL);
-    arm_fault();
+    arm_fault(at, mode, 3);
     let ua = faulty_del(&mut sc, 0);
     let _fm = faulty_merge(&mut sc);
     let ub = faulty_put(&mut sc, 1);
-    kani::cover!(mfs::__fs().fail_hit && mfs::__fs().fail_kind == mfs::K_UNLINK, "an unlink of the merge failed");
+    kani::cover!(mfs::__fs().fail_hit, "the fault was injected");
     fault_restart(sc, [ua, ub]);
+}
+
+/// C12 (direct form): every entry `(len, pos, key)` of every hint file addresses, in the data file
+/// of the SAME id, a record of that length holding that key and a value.
+pub(crate) fn check_hint_entries() {
+    let fs = mfs::__fs();
+    let mut id = 0;
+    while id < mfs::NID {
+        if fs.inodes[hslot(id)].linked {
+            let h = &mfs::__data()[hslot(id)];
+            let d = &mfs::__data()[dslot(id)];
+            let hl = fs.inodes[hslot(id)].len;
+            let dl = fs.inodes[dslot(id)].len;
+            assert!(hl % HINT_LEN == 0, "harness: hint file does not end on an entry boundary");
+            let mut e = 0;
+            while e < 4 {
+                if e * HINT_LEN < hl {
+                    let (len, pos, key) = (h[e * HINT_LEN + 1] as usize, h[e * HINT_LEN + 2] as usize, h[e * HINT_LEN + 4]);
+                    assert!(fs.inodes[dslot(id)].linked && pos + len <= dl, "[C12] a hint entry points outside the data file of its id");
+                    assert!(len == DATA_PUT_LEN && d[pos + 2] == key && d[pos + 3] == 1, "[C12] a hint entry does not address a value record of its key in the data file of its id");
+                }
+                e += 1;
+            }
+        }
+        id += 1;
+    }
+}
+
+/// Smallest fault shape M0 (quick tier): empty directory, every write rolls over; put a with the
+/// fault at call `at` of that put (0 = the write, 1 = the creation of the next active file), then a
+/// fault-free put b, and b is read back in the same process.  Decides: the failing call is reported
+/// by the put it belongs to; a later acknowledged put reads back.
+pub(crate) fn fault_shape_m0(at: usize, mode: u8) {
+    let init: Model = [None, None];
+    let mut sc = Sc::<0>::open(init, 0, false, T_NONE);
+    arm_fault(at, mode, 3);
+    let va: u8 = kani::any();
+    let r = sc.s.w.put(kb(K[0]), kb(va));
+    assert!(mfs::__fs().fail_hit, "harness: the fault was not injected into the first put");
+    assert!(r.is_err(), "[C20] a file-system call failed on behalf of a put, yet the put reported success");
+    std::mem::forget(r);
+    let vb: u8 = kani::any();
+    let r2 = sc.s.w.put(kb(K[1]), kb(vb));
+    assert!(r2.is_ok(), "[C20] an operation failed although no fault was injected into it");
+    std::mem::forget(r2);
+    match sc.s.r.get(kb(K[1])) {
+        Ok(g) => assert!(v1(&g) == Some(vb), "[C20] an acknowledged operation after a failed one does not read back"),
+        Err(_) => assert!(false, "[C20] an acknowledged operation after a failed one cannot be read"),
+    }
+    sc.finish();
+}
+
+/// Minimal fault shape M1 (quick tier): empty directory, every write rolls over; put a, put b, restart.
+/// Calls after the open: 0 write(a) 1 create 2 write(b) 3 create.
+pub(crate) fn fault_shape_m1(at: usize, mode: u8) {
+    let init: Model = [None, None];
+    let mut sc = Sc::<0>::open(init, 0, false, T_NONE);
+    arm_fault(at, mode, 3);
+    let ua = faulty_put(&mut sc, 0);
+    let ub = faulty_put(&mut sc, 1);
+    kani::cover!(mfs::__fs().fail_hit, "the fault was injected");
+    fault_restart(sc, [ua, ub]);
+}
+
+/// Minimal fault shape M2 (quick tier): two values on disk; merge of everything, then put b, restart.
+pub(crate) fn fault_shape_m2(at: usize, mode: u8) {
+    mfs::__preexisting(dslot(0));
+    let (va, vb): (u8, u8) = (kani::any(), kani::any());
+    lay_data(dslot(0), 0, K[0], Some(va));
+    lay_data(dslot(0), 0, K[1], Some(vb));
+    let init: Model = [Some(va), Some(vb)];
+    let mut sc = Sc::<0>::open(init, u64::MAX, false, T_ALL);
+    arm_fault(at, mode, 3);
+    let _fm = faulty_merge(&mut sc);
+    let ub = faulty_put(&mut sc, 1);
+    kani::cover!(mfs::__fs().fail_hit, "the fault was injected");
+    fault_restart(sc, [None, ub]);
 }
 
 // ---- C12: hint files are only an accelerator
